@@ -155,6 +155,22 @@ class BoundMethod:
         self.func = func
 
 
+class SuperProxy:
+    """zero-argument super() inside a method: attribute lookup continues after `cls` in type(self)'s MRO."""
+
+    def __init__(self, cls, selfval):
+        self.cls = cls
+        self.selfval = selfval
+
+
+class Handler:
+    """An engine-internal symbolic transformer (library contract): fn(interp, *args, **kwargs)."""
+
+    def __init__(self, fn, name=""):
+        self.fn = fn
+        self.name = name or getattr(fn, "__name__", "handler")
+
+
 class Env:
     __slots__ = ("vars", "parent", "globals")
 
@@ -191,7 +207,7 @@ def deep_concrete(v, depth=0):
     """True when no symbolic leaf is reachable from v (so a native call is an exact evaluation)."""
     from .strings import SStr
 
-    if is_sym(v) or isinstance(v, (SObj, SStr, Closure, BoundMethod)):
+    if is_sym(v) or isinstance(v, (SObj, SStr, Closure, BoundMethod, Handler, SuperProxy)):
         return False
     if hasattr(v, "_pyvc_symbolic"):
         return False
@@ -461,6 +477,9 @@ class Interp:
         try:
             loc = self.bind(node.args, args, kwargs, clo.defaults, clo.kwdefaults, clo.name)
             env = Env(loc, clo.env, clo.env.globals)
+            allargs = node.args.posonlyargs + node.args.args
+            if allargs:
+                loc["__first_arg__"] = loc[allargs[0].arg]
             if isinstance(node, ast.Lambda):
                 return self.eval(node.body, env)
             if _is_generator(node):
@@ -1021,6 +1040,13 @@ class Interp:
         return out
 
     def e_Call(self, e, env):
+        if isinstance(e.func, ast.Name) and e.func.id == "super" and not e.args and not e.keywords:
+            try:
+                cls = env.lookup("__class__")
+                first = env.lookup("__first_arg__")
+            except PyRaise:
+                raise Undecided("super() outside a method")
+            return SuperProxy(cls, first)
         f = self.eval(e.func, env)
         args = []
         for a in e.args:
@@ -1045,6 +1071,8 @@ class Interp:
             return self.call_closure(f, args, kwargs)
         if isinstance(f, BoundMethod):
             return self.call(f.func, [f.selfval] + list(args), kwargs)
+        if isinstance(f, Handler):
+            return f.fn(self, *args, **kwargs)
         h = self.lib.lookup(f)
         if h is not None:
             return h(self, *args, **kwargs)
@@ -1090,11 +1118,8 @@ class Interp:
             return self.native(cls, args, kwargs)
         obj = SObj(cls, {})
         init = inspect.getattr_static(cls, "__init__", None)
-        if dataclasses.is_dataclass(cls) and getattr(init, "__qualname__", "").endswith(".__init__") and (
-            "__create_fn__" in getattr(init, "__code__", type("x", (), {"co_filename": ""})).co_filename
-            or getattr(init, "__code__", None) is None
-            or init.__code__.co_filename.startswith("<")
-        ):
+        gen_init = isinstance(init, types.FunctionType) and init.__code__.co_filename.startswith("<")
+        if dataclasses.is_dataclass(cls) and gen_init:
             flds = [f for f in dataclasses.fields(cls) if f.init]
             names = [f.name for f in flds]
             vals = {}
@@ -1153,13 +1178,32 @@ class Interp:
             return static
         if isinstance(obj, SStr):
             return BoundMethod(obj, self.lib.str_method(name))
+        if isinstance(obj, SuperProxy):
+            sv = obj.selfval
+            start = sv.cls if isinstance(sv, SObj) else (sv if isinstance(sv, type) else type(sv))
+            mro = list(start.__mro__)
+            for k in mro[mro.index(obj.cls) + 1 :]:
+                if name in k.__dict__:
+                    raw = k.__dict__[name]
+                    if isinstance(raw, staticmethod):
+                        return raw.__func__
+                    if isinstance(raw, classmethod):
+                        return BoundMethod(start, raw.__func__)
+                    if isinstance(raw, property):
+                        return self.call(raw.fget, [sv], {})
+                    if isinstance(raw, types.FunctionType):
+                        return BoundMethod(sv, raw)
+                    if k is object and name == "__init__":
+                        return Handler(lambda it, *a, **kw: None, "object.__init__")
+                    return raw
+            raise PyRaise(AttributeError, (name,))
         if hasattr(obj, "_pyvc_getattr"):
             return obj._pyvc_getattr(self, name)
         if is_sym(obj):
             h = self.lib.term_attr(self, obj, name)
             if h is not None:
                 return h
-            raise Undecided(f"attribute {name} of term")
+            raise PyRaise(AttributeError, (name,))  # terms stand for plain int / float / bool values
         if isinstance(obj, str) and self.lib.str_method(name, probe=True) is not None and not self.lib.native_str_ok(name):
             return BoundMethod(SStr.lit(obj), self.lib.str_method(name))
         if isinstance(obj, (list, dict)):
@@ -1690,16 +1734,27 @@ def _is_log_call(e):
 # --------------------------------------------------------------------------- DFS driver
 
 
-def explore(run_path, max_paths=4000):
-    """run_path(ctx) -> outcome.  Returns the list of (ctx, outcome) over all feasible paths."""
+def explore(run_path, max_paths=1500, on_result=None, max_seconds=None):
+    """run_path(ctx) -> outcome.  Calls on_result(ctx, outcome) per feasible path (or returns the list).
+    When the budget runs out the paths explored so far have been reported and Undecided is raised."""
+    import time as _t
+
+    t0 = _t.time()
     stack = [[]]
     results = []
+    n = 0
     while stack:
         prefix = stack.pop()
         ctx = PathCtx(prefix)
         outcome = run_path(ctx)
-        results.append((ctx, outcome))
+        n += 1
+        if on_result is not None:
+            on_result(ctx, outcome)
+        else:
+            results.append((ctx, outcome))
         stack.extend(ctx.alternatives)
-        if len(results) > max_paths:
-            raise Undecided("path budget exceeded")
+        if n >= max_paths and stack:
+            raise Undecided(f"path budget exceeded ({n} paths explored, more pending)")
+        if max_seconds is not None and _t.time() - t0 > max_seconds and stack:
+            raise Undecided(f"exploration time budget exceeded ({n} paths explored, more pending)")
     return results
